@@ -192,6 +192,22 @@ var collectNames = []string{"keep", "Collect(each)", "CollectList/CollectMap", "
 
 // historyCall performs one random prior call and optionally hands its result back to the pools.
 func historyCall(r *rng.Rand) string {
+	if r.Intn(12) == 0 {
+		// a struct with a field keyed by the empty string (tag zog:""), visited in random order with its siblings
+		n := structOf("blank", str(), "other", req(str()), "third", prim(spec.Int))
+		n.Fields[0].Tags = map[string]string{"zog": ""}
+		n.Number()
+		o := run.Parse(spec.Build(n, &spec.Hooks{FieldOrder: permutedOrder(r)}), map[string]any{"": "v", "other": []any{"", "x"}[r.Intn(2)], "third": 3}, nil)
+		return fmt.Sprintf("Parse of a struct with an empty-keyed field -> %d issues, keep", len(o.Issues))
+	}
+	if r.Intn(12) == 0 {
+		// user code panics below the root and the caller recovers (as net/http does for handlers)
+		in := structOf("name", &spec.Node{Kind: spec.String, Tests: []spec.Test{{Op: spec.TCustom, PredName: "panics", Pred: func(any) bool { panic("user callback panics") }}}})
+		n := structOf("items", sliceOf(in), "other", str())
+		n.Number()
+		o := run.Parse(spec.Build(n, nil), map[string]any{"items": []any{map[string]any{"name": "x"}}, "other": "y"}, nil)
+		return fmt.Sprintf("Parse whose user callback panicked below the root (recovered by the caller: %v)", o.Panicked)
+	}
 	pr := c07RandomProbe(r)
 	keys := []string{"k0", "k1", "k2", "lang", "user"}
 	var opts []z.ExecOption
